@@ -227,7 +227,10 @@ class StreamReaderBufferedProtocol(asyncio.BufferedProtocol):
 
     def get_buffer(self, sizehint: int) -> WriteableBuffer:
         if (external_buffer_view := self.__external_buffer_view) is not None:
-            return external_buffer_view
+            if (waiter := self.__read_waiter) is not None and not waiter.done():
+                return external_buffer_view
+            # The reader has been cancelled but its task did not run yet: keep the incoming data for the next reader.
+            self.__external_buffer_view = None
         # Ignore sizehint, the buffer is already at its maximum size.
         # Returns unused buffer part
         if self.__buffer is None:
@@ -341,6 +344,10 @@ class StreamReaderBufferedProtocol(asyncio.BufferedProtocol):
                 self.__external_buffer_view = external_buffer
                 try:
                     nbytes_written_in_external_buffer = await self.__read_waiter
+                except asyncio.CancelledError:
+                    if external_buffer is not None:
+                        self.__take_back_external_buffer_data(self.__read_waiter, external_buffer)
+                    raise
                 finally:
                     self.__external_buffer_view = None
         finally:
@@ -349,6 +356,26 @@ class StreamReaderBufferedProtocol(asyncio.BufferedProtocol):
         if nbytes_written_in_external_buffer is None:
             self._check_for_connection_lost()
         return nbytes_written_in_external_buffer
+
+    def __take_back_external_buffer_data(self, waiter: asyncio.Future[int | None], external_buffer: WriteableBuffer) -> None:
+        # The task has been cancelled after the data was written into its buffer but before it woke up:
+        # move these bytes to the internal buffer (before anything received since then), the next reader will get them.
+        if self.__buffer is None or not waiter.done() or waiter.cancelled() or waiter.exception() is not None:
+            return
+        nbytes = waiter.result()
+        if not nbytes:
+            return
+        already_written = self.__buffer_nbytes_written
+        with memoryview(external_buffer) as data:
+            if already_written + nbytes > self.__buffer_view.nbytes:
+                self.__buffer_view.release()
+                self.__buffer.extend(bytes(already_written + nbytes - len(self.__buffer)))
+                self.__buffer_view = memoryview(self.__buffer)
+            if already_written:
+                self.__buffer_view[nbytes : nbytes + already_written] = bytes(self.__buffer_view[:already_written])
+            self.__buffer_view[:nbytes] = data[:nbytes]
+        self.__buffer_nbytes_written = already_written + nbytes
+        self._maybe_pause_transport()
 
     def _read_waiter_fut(self, set_result_cb: Callable[[asyncio.Future[int | None]], None]) -> None:
         if (waiter := self.__read_waiter) is not None:
